@@ -170,7 +170,8 @@ def main():
                     continue
                 record["fate"] = "survived-all"
                 record["checks"] = {}
-                check_env = dict(os.environ, VERIF_SELFTEST="1", VERIF_SUT_SRC=os.path.join(worktree, "src"), VERIF_SEED="1")
+                check_env = dict(os.environ, VERIF_SELFTEST="1", VERIF_SUT_SRC=os.path.join(worktree, "src"), VERIF_SEED="1",
+                                 VERIF_HARD_LIMIT_S="420")
                 for prop in props:
                     start = time.time()
                     res = run([os.path.join(ROOT, "check"), prop, "--tier", "quick"], cwd=ROOT, env=check_env)
@@ -180,6 +181,9 @@ def main():
                     if res.returncode == 1:
                         record["fate"] = "caught"
                         record["caught_by"] = prop
+                        break
+                    if res.returncode == 2 and "KILLED after the hard limit" in res.stdout:
+                        record["fate"] = "hangs"  # the mutant does not terminate: the check reports a harness error (exit 2)
                         break
                     if res.returncode == 2:
                         record["fate"] = "harness-error"
